@@ -18,7 +18,10 @@ RULE = ('Echo: KEEPALIVE frames (respond flag 0/1, data 0-200 bytes, 63-bit posi
         'the same data, answers in request order, unflagged ones are never answered; the client\'s respond-flagged '
         'KEEPALIVEs are sent at successive virtual times differing by exactly P; on_keepalive_timeout is not invoked '
         'while KEEPALIVEs (counting connection start) keep arriving with gaps <= 0.9 L and has been invoked by 2.2 L after '
-        'the last one when the server goes silent. Non-trivial = a pattern that stops, or a respond-flagged echo with '
+        'the last one when the server goes silent. Busy client: one 3-12 kB request fragmented at 64 bytes over a link on '
+        'which every write takes 1-5 ms (the transfer spans several periods P in {20, 50, 100} ms), acknowledged '
+        'keepalives: consecutive respond-flagged KEEPALIVEs are never further apart than P plus three write times and '
+        'no timeout is reported. Non-trivial = a pattern that stops, or a respond-flagged echo with '
         'data; distinct = case hash.')
 ASSUMPTIONS = ['virtual clock: loop.time() and datetime.now() of rsocket.rsocket_client', 'gaps are generated off the exact '
                'boundaries L and 2L (the statement does not fix them); how often the timeout fires is not judged']
@@ -151,10 +154,70 @@ def judge_timing(case):
                                  'gaps=%d' % len(case['gaps'])]
 
 
+@st.composite
+def busy_cases(draw):
+    """A client that is busy sending: one large fragmented payload over a slow link takes several keep-alive periods."""
+    P = draw(st.sampled_from([20, 50, 100]))
+    d = draw(st.sampled_from([1, 2, 5]))
+    size = draw(st.sampled_from([3000, 6000, 12000]))
+    return {'busy': True, 'P': P, 'L': P * draw(st.sampled_from([6, 10])), 'delay_ms': d, 'size': size,
+            'k': draw(st.sampled_from(['fnf', 'rr', 'st'])), 'msg': draw(st.booleans()),
+            'second': draw(st.booleans())}
+
+
+def judge_busy(case):
+    P, L, d = case['P'], case['L'], case['delay_ms']
+    spec = {'k': case['k'], 'side': 'c', 'req': [case['size'], 0]}
+    if case['k'] == 'rr':
+        spec['resp'] = {'mode': 'manual', 'p': [3, 0]}
+    if case['k'] == 'st':
+        spec['src'] = {'kind': 'manual', 'els': [], 'end': 'sep'}
+        spec['sub'] = {'n0': 1, 'refill': 0}
+    inter = [spec]
+    nfr = case['size'] // 50 + 2
+    transfer_ms = nfr * d
+    ops = [['tick', 3], ['mark', 'start'], ['start']]
+    if case['second']:
+        inter.append({'k': 'fnf', 'side': 'c', 'req': [case['size'] // 2, 10]})
+        ops.append(['start'])
+    t = 0.0
+    while t < transfer_ms + 2 * P:
+        ops.append(['adv', 0.4 * L])
+        ops.append(['rawframe', {'type': 'KEEPALIVE', 'sid': 0, 'respond': False, 'position': 0, 'data': b''}])
+        t += 0.4 * L
+    ops += [['tick', 2], ['mark', 'end']]
+    prog = {'cfg': {'msg': case['msg'], 'frag': [64, 64], 'rbuf': [1024, 1024], 'raw': 's', 'ka': P / 1000.0, 'life': L / 1000.0,
+                    'write_delay': [d / 1000.0, 0]}, 'inter': inter, 'ops': ops, 'heal': False}
+    tr = run_program(prog)
+    out = []
+    timeouts = [e for e in tr.world.log if e['ev'] == 'on_keepalive_timeout']
+    if timeouts:
+        out.append(viol('false_keepalive_timeout', 'C15:false_timeout:busy', L_ms=L, P_ms=P, delay_ms=d, size=case['size']))
+    sends = [e for e in tr.world.wire.get('c', []) if e['f']['type'] == 'KEEPALIVE' and e['f'].get('respond')]
+    frs = [e for e in tr.world.wire.get('c', []) if e['f']['type'] not in ('KEEPALIVE', 'SETUP')]
+    busy_until = frs[-1]['t'] if frs else 0
+    marks = {e['name']: e for e in tr.world.log if e['ev'] == 'mark'}
+    times = [marks['start']['t']] + [e['t'] for e in sends] + [marks['end']['t']]
+    # a keepalive that falls due while a fragment is being written waits for that one write (and the one of a second stream)
+    slack = (3 * d + 0.001) / 1000.0
+    worst = max((b - a) for a, b in zip(times, times[1:]))
+    if worst > P / 1000.0 + slack:
+        out.append(viol('keepalive_period_wrong', 'C15:period:busy', P_ms=P, worst_gap_ms=round(worst * 1000, 3), delay_ms=d,
+                        size=case['size'], fragments=len(frs)))
+    during = sum(1 for e in sends if e['t'] <= busy_until)
+    for err in tr.loop_errors:
+        out.append(viol('unhandled_exception', 'C15:loop_error:%s' % err.get('type'), **err))
+    return out, during >= 2, ['part=busy', 'keepalives_during_transfer=%s' % (during if during < 5 else '5+')]
+
+
 info = {}
 
 
 def prop(case):
+    if case.get('busy'):
+        vs, nt, classes = judge_busy(case)
+        info['nt'], info['classes'] = nt, classes
+        return vs
     vs, nt, classes = judge_echo(case) if case.get('echo') else judge_timing(case)
     info['nt'], info['classes'] = nt, classes
     return vs
@@ -168,7 +231,8 @@ def shard(tier, seed, n, which):
     common.use_repo()
     stats = common.Stats()
     known = common.Known(PID)
-    common.hyp_search(stats, known, echo_cases() if which == 'echo' else timing_cases(), prop, n, seed, classify=classify)
+    strat = {'echo': echo_cases, 'timing': timing_cases, 'busy': busy_cases}[which]()
+    common.hyp_search(stats, known, strat, prop, n, seed, classify=classify)
     return stats
 
 
@@ -177,6 +241,7 @@ def run(tier, seed):
     total = 4800 if tier == 'quick' else 60000
     seeds = common.shard_seeds(seed, common.NPROC)
     jobs = [dict(tier=tier, seed=s, n=total // len(seeds), which='echo' if i % 3 == 0 else 'timing') for i, s in enumerate(seeds)]
+    jobs += [dict(tier=tier, seed=s + 31, n=(64 if tier == 'quick' else 1600) // 4, which='busy') for s in seeds[:4]]
     stats = common.run_shards(__name__, 'shard', jobs)
     return common.finish(PID, tier, seed, LEVEL, RULE, stats, t0, ASSUMPTIONS)
 
